@@ -217,4 +217,16 @@ Section Boot.
         | AArray _ _ => Err   (* array alpha with bc/bca: outside the modelled domain (property: quantile only) *)
         end
     end.
+
+  (* dtype of theta and theta_hat.  With integer replicates AND an integer estimate, a_num = nansum((theta -
+     theta_hat) ** 3) is an integer array, so out=np.zeros_like(a_num) is an integer buffer and
+     np.divide(a_num, a_den, out=...) raises UFuncTypeError (cannot cast float64 to int64): the bca branch
+     fails before any limit is computed.  quantile and bc are unaffected (they only compare and count). *)
+  Inductive dtype := DFloat | DInt.
+  Definition bootstrap_ci_dt (dt : dtype) (yshape : list nat) (rows : list (list rate)) (hats : option (list rate))
+             (al : alpha_arg) (m : method) : res (list nat * list rate) :=
+    match dt, m, hats, al with
+    | DInt, MBca, Some _, AScalar _ => Err
+    | _, _, _, _ => bootstrap_ci yshape rows hats al m
+    end.
 End Boot.
